@@ -73,6 +73,17 @@ def setup_worker():
         except Exception:  # noqa
             pass
     AUDIT.install(os.path.dirname(smartquery.__file__))
+    # second warm-up pass with the hook armed but lenient, then strict mode
+    AUDIT.armed = True
+    for name in sorted(__import__('smartquery.functions', fromlist=['FUNCTIONS']).FUNCTIONS):
+        for src in (f'{name}("ab", "a")', f'{name}([1, 2], v => v)', f'{name}(1.5)', f'{name}({{"a": 1}}, "a", 1)'):
+            try:
+                p.eval(src, {})
+            except BaseException:  # noqa
+                pass
+    AUDIT.armed = False
+    AUDIT.flagged.clear()
+    AUDIT.strict = True
 
 
 PLAIN = (bool, int, float, Decimal, str)
@@ -200,9 +211,16 @@ FORMS = ['{c}', 'r = {c}\nr', 'r = {c}\nr[0]', 'str({c})', '[{c}, {c}]', '{c} | 
          'r = {c}\nr("__class__")', 'r = {c}\nr.startswith("a")']
 
 
+EXTRA_ARGS = ['cp1251', 'koi8_r', 'utf-16', 'rot13', 'idna', 'base64', 'hex', 'zip', 'unicode_escape', 'punycode', 'mbcs', 'undefined', 'utf_7', 'cp437',
+              '/etc/passwd', 'os', 'w', 'rb', 3600, -1, None, True]
+
+
 def build_call(a, name, names, depth=0):
     """source of one call; plain-data arguments are bound to fresh host names"""
     args = a.call(name)
+    if a.n(6) == 0:
+        # optional / extra trailing arguments: a builtin must not grow dangerous optional parameters
+        args = list(args) + [a.pick(EXTRA_ARGS) for _ in range(1 + a.n(2))]
     parts = []
     interesting = False
     for v in args:
